@@ -495,6 +495,24 @@ def verify_config(contract, cfg, both=False, z3_timeout=None):
             res.verdicts.append(v)
         if npaths and len(infeasible_paths) >= npaths:
             res.error = ('vacuous', 'every explored path has a contradictory path condition')
+        # failed / undecided VCs without a natively reproduced counter-model (typical for loop units: the model of an invariant VC
+        # is a mid-loop state): look for a concrete failing child behaviour by bounded native enumeration (never counts as proved)
+        open_ = [v for v in res.verdicts if v.status != 'unsat' and not (isinstance(v.note, dict) and v.note.get('reproduced'))]
+        if open_:
+            from . import replay as _rp
+            try:
+                bad, tried, bound = _rp.bounded_fragment(cx, contract)
+            except Exception as e:
+                bad, tried, bound = [], 0, f'bounded stand-in crashed: {type(e).__name__}: {e}'
+            if bad:
+                for v in open_:
+                    if v.status == 'sat':
+                        v.note = {'reproduced': True, 'violated': bad[:2], 'bound': bound, 'tried': tried,
+                                  'how': 'concrete failing child behaviour found by running the emitted text natively on every contract-conforming child behaviour over a tiny position space'}
+                if not any(v.status == 'sat' for v in open_):
+                    from .solve import Verdict
+                    res.verdicts.append(Verdict('bounded:emitted-text-on-all-small-child-behaviours', 'post', 'sat', 'native-enumeration', 0.0,
+                                                model=None, note={'reproduced': True, 'violated': bad[:2], 'bound': bound, 'tried': tried}))
         for name, sts in mustfail.items():
             # G-end-off-by-one is legitimately provable when the unit can never succeed (Fail): only flag it when some path can succeed
             if sts and all(x == 'unsat' for x in sts):
